@@ -44,6 +44,12 @@ CHECKS = {
         "thorough": {"runs": 20000, "wall": 1800},
         "selftest_runs": 96,
     },
+    "C08": {
+        "level": "exploration",
+        "legs": [("query", "C08")],
+        "quick": {"runs": 640, "wall": 75},
+        "thorough": {"runs": 60000, "wall": 1800},
+    },
 }
 
 
@@ -53,6 +59,19 @@ def leg_of(check, i):
 
 
 EVIDENCE_TEXT = {
+    "C08": {
+        "rule": "each run = one fitted problem (xy / indexed / histogram / unbinned stratified; iminuit and scipy; sources incl. x-errors, correlations and "
+                "model-referenced ones; optional constraint, fixed parameter, wide limits; optimum interior) followed by a seeded sequence with repetition of post-fit "
+                "queries: parameter_cov_mat, parameter_cor_mat, parameter_errors, minimizer hessian/hessian_inv, asymmetric_parameter_errors, _fitter.profile "
+                "(low/high/sigma/cl/size/subtract_min/arrows variants), _fitter.contour, ContoursProfiler.get_profile/get_contours, XYFit.error_band, report, "
+                "get_result_dict (with and without asymmetric errors), gc. After EVERY query: parameter values / cost / symmetric uncertainties / did_fit unchanged "
+                "up to the minimizer tolerance, fixed parameters bitwise, minimizer copy == graph copy (1e-9), and the same query asked twice in a row gives the same "
+                "answer. non-trivial = a converged well-posed fit and >=2 queries.",
+        "states_measure": "distinct (query kind, stale/frozen bits of all graph nodes, fixed set) tuples after queries",
+        "assumptions": ["ill-posed fits (uncertainty larger than |value|+1, non-converged, optimum on a limit) are discarded before any oracle is consulted",
+                        "profiles / contours / asymmetric errors are skipped for the iterative treatment with dynamic errors (kafe2 documents that it switches algorithm)",
+                        "to_file is exercised by M-IO; plots are not exercised (matplotlib would dominate the run time)"],
+    },
     "C19": {
         "rule": "hosts: fits (xy/indexed/histogram/unbinned), data containers (indexed/xy), histogram containers, graphs. A valid base history (mutators + reads) is "
                 "generated; in the enumerated regime (every second run, base length <= 8) EVERY applicable catalogue kind R1-R10 is inserted at EVERY position, one "
